@@ -73,6 +73,22 @@ def run(ctx):
             else:
                 calls = ["begin_function/1/-/0/2", "begin_block/-", "nop", c, "end_function"]
             reqs.append("buildrt " + " ".join(calls))
+    # the wrappers `x(args) = x_id(None, args)` (generated for every type method): the callee's call without its id argument
+    by_name = {m["name"]: m for m in g.methods}
+    for w in (T["builder"] if "builder" in T else []):
+        if w.get("kind") != "wrapper" or w["name"] in skip or w["callee"] in skip or w["callee"] not in by_name:
+            continue
+        callee = by_name[w["callee"]]
+        parts = g.call(callee).split("/")
+        idpos = [k for k, (pn, _) in enumerate(callee["params"]) if pn == "result_id"]
+        if idpos:
+            del parts[1 + idpos[0]]
+        if callee["opname"] in ("TypeInt", "TypeFloat"):
+            parts[1] = "32"
+        reqs.append("buildrt " + "/".join([w["name"]] + parts[1:]))
+    # the 64-bit constant methods, typed by a 64-bit type declared before them (ids: 1 type, 2, 3 constants, 4 type, 5 constant)
+    reqs.append("buildrt type_int/64/0 constant_bit64/1/18446744073709551615 spec_constant_bit64/1/4294967296 type_float/64 constant_bit64/4/4607182418800017408")
+    reqs.append("buildrt type_int/64/1 spec_constant_bit64/1/9223372036854775808 begin_function/1/-/0/2 begin_block/- ret end_function")
     n_single = len(reqs)
     for _ in range(300 if ctx.tier == "quick" else 5000):
         reqs.append("buildrt " + " ".join(g.history(size=rnd.choice([0.5, 1, 2]), skip=skip)))
